@@ -15,13 +15,14 @@ func init() { props["C01"] = runC01; props["C02"] = runC02 }
 func omniFor(run *Run) Omni {
 	o := Omni{Bases: 100, PosSample: 30, OnlyBase: -1, Opts: ScenarioOpts{Histories: 6, Gen: GenOpts{MaxDepth: 2}}}
 	if run.Thorough {
-		o.Bases, o.AllPos, o.Opts.Histories = 150, true, 60
+		// (all offsets of all states of all bases would take half a day: every 10th base's first state gets all offsets)
+		o.Bases, o.PosSample, o.AllPosEvery, o.Opts.Histories = 200, 150, 10, 18
 	}
 	return o
 }
 
 func runC01(run *Run, replay string) {
-	run.Res.Rule = "generated schema (all constraint kinds, block types, address forms, extensions; every 5th degenerate-but-valid) x schema-directed configuration (every 3rd with injected violations) x typing history (prefixes, single-token deletions/duplications/replacements) x cursor offsets (token boundaries +-1 and a sample; all offsets in thorough) x every public query under recover() and a 20 s deadline; distinct non-trivial = distinct (file text, query, offset) whose call returned a non-empty result"
+	run.Res.Rule = "generated schema (all constraint kinds, block types, address forms, extensions; every 5th degenerate-but-valid) x schema-directed configuration (every 3rd with injected violations) x typing history (prefixes, single-token deletions/duplications/replacements) x cursor offsets (token boundaries +-1 and a sample; in thorough a five times larger sample and all offsets for every 10th base) x every public query under recover() and a 20 s deadline; distinct non-trivial = distinct (file text, query, offset) whose call returned a non-empty result"
 	o := omniFor(run)
 	o.OnScenario = modelCasesHook(run)
 	omnibus(run, o, func(s *Scenario, p *PathData, q Query, res QResult, loc map[string]interface{}) {
